@@ -14,7 +14,8 @@ import CalVerif.Model.De
       the worksheet `match r.typ` of `parse_workbook` → `step`; the `for record in records` loop with its
       `record?` and `break` at EOF     → `items` (lazy `RecordIter`) + `sheetLoop`; `Range::from_sparse` is
       `Range.fromSparse` (Model/Range.lean), called on the cells and then on the `formulas` vector
-      (`formulaCells`, `withFormulaRange`: only its panic is observable here).
+      (`formulaCells`, `withFormulaRange`: only its panic is observable here). The per-sheet loop carries the
+      workbook-wide scan counter of fix edc415f: `sheetLoopS`, `sheetRangeS`, `workbookSheets`.
     Framing (`RecordIter::next` with CONTINUE gathering) and `parse_string` are the definitions of
     Model/BiffStrings.lean (`Biff.nextRecord`, `Biff.parseStringWith`), shared with C12.
 
@@ -392,8 +393,98 @@ def withFormulaRange (its : List Item) (r : Res (Range.Rng Val)) : Res (Range.Rn
     | .outOfFuel => .outOfFuel
   | other => other
 
-/-- a worksheet substream (from its BOF, as `&stream[pos..]`) to its range -/
+/-- a worksheet substream (from its BOF, as `&stream[pos..]`) to its range — the sheet loop WITHOUT the scan
+    counter of `parse_workbook` (see `sheetRangeS` / `workbookSheets` below, which mirror the code with it).
+    `sheetRangeS_eq` (Lemmas/BiffScan.lean): the two agree whenever the budget is not exhausted, which a single
+    substream (`n + s.length ≤ limit`) can never do. -/
 def sheetRange (env : Env) (s : Bytes) : Res (Range.Rng Val) :=
   withFormulaRange (items s) (rangeOf (decodeSheet env (items s)))
+
+/-! ### the scan counter of `parse_workbook` (fix edc415f)
+
+    `let scan_limit = stream.len().saturating_mul(8).saturating_add(1 << 16); let mut scanned = 0usize;` then, in
+    the record loop of EVERY sheet, right after `let r = record?;` and before the `match r.typ` (so the EOF record
+    counts too): `scanned = scanned.saturating_add(r.data.len() + 4); if scanned > scan_limit { return Err(EoStream(..)) }`.
+    `usize` saturation is out of reach (a stream of 2^60 bytes): plain `Nat` arithmetic. -/
+
+/-- `r.data.len() + 4`: the first fragment and the header, CONTINUE fragments are not counted -/
+def recCost (r : Rec) : Nat := r.data.length + 4
+
+/-- `scan_limit` -/
+def scanLimit (streamLen : Nat) : Nat := 8 * streamLen + 65536
+
+/-- the worksheet loop with the counter threaded: returns the cells and the counter -/
+def sheetLoopS (env : Env) (limit : Nat) : List Item → St → Nat → Res (List Cell × Nat)
+  | [], st, n => .ok (st.cells, n)
+  | .fail e :: _, _, _ => failAs e
+  | .record r :: rest, st, n =>
+    if n + recCost r > limit then .err "EoStream:overlapping sheet substreams"
+    else if r.typ = 0x000A then .ok (st.cells, n + recCost r)
+    else
+      match step env st r with
+      | .ok st' => sheetLoopS env limit rest st' (n + recCost r)
+      | .err e => .err e
+      | .panic s => .panic s
+      | .outOfFuel => .outOfFuel
+
+/-- one sheet of `parse_workbook`: the loop, then the two `from_sparse` calls; the counter goes on to the next sheet -/
+def sheetRangeS (env : Env) (limit : Nat) (s : Bytes) (n : Nat) : Res (Range.Rng Val × Nat) :=
+  match sheetLoopS env limit (items s) ⟨[], (0, 0)⟩ n with
+  | .ok (cells, n') =>
+    match withFormulaRange (items s) (Range.fromSparse cells) with
+    | .ok r => .ok (r, n')
+    | .err e => .err e
+    | .panic m => .panic m
+    | .outOfFuel => .outOfFuel
+  | .err e => .err e
+  | .panic m => .panic m
+  | .outOfFuel => .outOfFuel
+
+/-- `for (pos, name) in sheet_names { let sh = stream.get(pos..).ok_or(EoStream("sheet substream offset"))?; … }`:
+    the ranges of all sheets in BoundSheet8 order, the counter shared by all of them -/
+def sheetsFrom (env : Env) (stream : Bytes) : List Nat → Nat → Res (List (Range.Rng Val))
+  | [], _ => .ok []
+  | pos :: ps, n =>
+    if stream.length < pos then .err "EoStream:sheet substream offset"
+    else
+      match sheetRangeS env (scanLimit stream.length) (stream.drop pos) n with
+      | .ok (r, n') =>
+        match sheetsFrom env stream ps n' with
+        | .ok rs => .ok (r :: rs)
+        | .err e => .err e
+        | .panic m => .panic m
+        | .outOfFuel => .outOfFuel
+      | .err e => .err e
+      | .panic m => .panic m
+      | .outOfFuel => .outOfFuel
+
+/-- the sheet part of `parse_workbook`: `offsets` = the lbPlyPos of the BoundSheet8 records, in their order -/
+def workbookSheets (env : Env) (stream : Bytes) (offsets : List Nat) : Res (List (Range.Rng Val)) :=
+  sheetsFrom env stream offsets 0
+
+/-! #### work: how many times the body of the record loop runs (a cost model of the same recursion) -/
+
+/-- number of records the loop of one sheet takes from `RecordIter` and counts (the one that trips the limit included) -/
+def sheetLoopWork (env : Env) (limit : Nat) : List Item → St → Nat → Nat
+  | [], _, _ => 0
+  | .fail _ :: _, _, _ => 0
+  | .record r :: rest, st, n =>
+    1 + (if n + recCost r > limit then 0
+         else if r.typ = 0x000A then 0
+         else
+           match step env st r with
+           | .ok st' => sheetLoopWork env limit rest st' (n + recCost r)
+           | _ => 0)
+
+/-- … over all sheets, stopping where `sheetsFrom` stops -/
+def sheetsWork (env : Env) (stream : Bytes) : List Nat → Nat → Nat
+  | [], _ => 0
+  | pos :: ps, n =>
+    if stream.length < pos then 0
+    else
+      sheetLoopWork env (scanLimit stream.length) (items (stream.drop pos)) ⟨[], (0, 0)⟩ n +
+        (match sheetRangeS env (scanLimit stream.length) (stream.drop pos) n with
+         | .ok (_, n') => sheetsWork env stream ps n'
+         | _ => 0)
 
 end BiffCells
